@@ -1079,6 +1079,9 @@ M('C13', 'OneSiteH.adjoint reads LHeff and RHeff in both directions (original de
             tensors.extend(['LHeff', 'RHeff'])
 """, 'HEFF-conditional-attr')
 
+M('C13', 'subspace expansion (right move) projects a leg the tensor does not have', MC,
+  "                LHeff.iproject(proj, 'wR')\n", "                LHeff.iproject(proj, 'wL')\n", 'LABEL-known')
+
 # ---------------------------------------------------------------- C16 / C19
 M('C16', 'GMRES restart: relative residual norm used for normalisation (round-3 seed b)', KRY,
   """        self.total_error.append([npc.norm(self.rs[-1]) / self.b_norm])
